@@ -77,7 +77,7 @@ var fileCounter int
 var mu sync.Mutex
 
 // DefaultBudget is far above what any terminating run in the workloads needs.
-const DefaultBudget = 400_000_000
+const DefaultBudget = 20_000_000_000
 
 func setFlags(c Case) {
 	utils.DebugFlags = c.Mode == "debug"
@@ -116,8 +116,8 @@ func classifyPanic(e any) (string, string) {
 func Run(c Case) *Obs {
 	mu.Lock()
 	defer mu.Unlock()
-	if d := os.Getenv("VERIF_DUMP_TEXT"); d != "" {
-		os.WriteFile(d, []byte(c.Text), 0o644) // debug aid: the last grammar text handed to yaccgo
+	if d := os.Getenv("VERIF_DUMP_TEXT"); d != "" && len(c.Text) > 20000 && c.Mode == "gen" {
+		os.WriteFile(d, []byte(c.Text), 0o644) // debug aid: the last large grammar text handed to yaccgo
 	}
 	setFlags(c)
 	budget := c.Budget
